@@ -21,20 +21,19 @@ EXTENDS Naturals, Sequences, FiniteSets, TLC, Json, FiniteSetsExt
 CONSTANTS MaxEntries,    \* longest skeleton
           Allowances,    \* set of flakiness allowances explored (target.Test.Flakiness)
           Budget,        \* bound: Len(skeleton) * allowance <= Budget
-          Canonical,     \* TRUE: only skeletons whose first entry is (c1, n1) (class/name renaming symmetry)
-          Flaw_SyntheticCaseOnErrorsOnly,
-                         \* TRUE: also model parseTestOutput's extra case "Test returned nonzero but reported no
-                         \* errors", which the code adds when the attempt exits non-zero and NO case FAILED -- even
-                         \* if cases ERRORED. A recorded flaw of the code (findings.d/results.json): with TRUE, TLC is
-                         \* expected to refute CountsOK (cfg MC_TestResults_known.cfg); FALSE everywhere else.
+          Canonical,     \* TRUE: only skeletons whose first entry is (c0, n1) or (c1, n1) (symmetry: the two
+                         \* names may be swapped, and so may the two classnames c1/c2; c0 is special)
+          ClassSet,      \* the classnames entries may carry, a subset of {"c0", "c1", "c2"} (see Classes)
           Emit
 
 Outcomes == {"pass", "fail", "error", "skip"}
 Ok(o) == o \in {"pass", "skip"}
-Classes == {"c1", "c2"}
+\* "c0" = the entry carries NO classname (optional in JUnit XML; always so in go output); c1, c2 = two classnames.
+\* An unqualified case and a class-qualified case with the same name are DIFFERENT test cases.
+Classes == ClassSet
 Names == {"n1", "n2"}
 Idents == [cls : Classes, name : Names]          \* identity of a test case = (classname, name)
-Formats == IF Flaw_SyntheticCaseOnErrorsOnly THEN {"xml"} ELSE {"xml", "go"}
+Formats == {"xml", "go"}
 Layouts == {"flat", "suites", "nested"}          \* XML structures the same cases are rendered in (harness)
 View(f, o) == IF f = "go" /\ o = "error" THEN "fail" ELSE o
 
@@ -71,15 +70,12 @@ Skeletons == UNION {[1..n -> Idents] : n \in 1..MaxEntries}
 Init == /\ skel \in Skeletons
         /\ allow \in Allowances
         /\ Len(skel) * allow <= Budget
-        /\ Canonical => skel[1] = [cls |-> "c1", name |-> "n1"]
+        /\ Canonical => skel[1].name = "n1" /\ skel[1].cls \in {"c0", "c1"} \cap Classes
         /\ runs = <<>>
         /\ results = <<>>
         /\ stopped = FALSE
 AllOk(outs) == \A i \in 1..Len(outs) : Ok(outs[i])
-\* parseTestOutput: if runError != nil && results.Failures() == 0 { results.Add(failSuite(...)) }
-Synthetic(outs) == IF Flaw_SyntheticCaseOnErrorsOnly /\ ~AllOk(outs) /\ ~\E i \in 1..Len(outs) : outs[i] = "fail"
-                   THEN <<[id |-> [cls |-> "", name |-> "the_test"], out |-> "error"]>> ELSE <<>>
-Entries(outs) == [i \in 1..Len(skel) |-> [id |-> skel[i], out |-> outs[i]]] \o Synthetic(outs)
+Entries(outs) == [i \in 1..Len(skel) |-> [id |-> skel[i], out |-> outs[i]]]
 Run(outs) == /\ ~stopped
              /\ Len(runs) < allow                       \* for flakes := 1; flakes <= Flakiness
              /\ runs' = Append(runs, outs)
@@ -94,6 +90,24 @@ Terminal == stopped \/ Len(runs) = allow
 Ids == {skel[i] : i \in 1..Len(skel)}
 Had(id, f, o) == \E r \in 1..Len(runs), i \in 1..Len(skel) : skel[i] = id /\ View(f, runs[r][i]) = o
 NExecs(id) == Len(runs) * Cardinality({i \in 1..Len(skel) : skel[i] = id})
+\* how many executions of each kind the attempts record for a case: every listed entry of every attempt is one
+\* execution, and none may be lost or invented on the way to the reported results
+NOut(id, f, o) == Cardinality({p \in (1..Len(runs)) \X (1..Len(skel)) : skel[p[2]] = id /\ View(f, runs[p[1]][p[2]]) = o})
+ExecCounts(id, f) == [cls |-> id.cls, name |-> id.name,
+                      pass |-> NOut(id, f, "pass"), fail |-> NOut(id, f, "fail"),
+                      error |-> NOut(id, f, "error"), skip |-> NOut(id, f, "skip"),
+                      \* a case that never passed and never was skipped is reported by its failing/erroring executions
+                      \* alone: these must survive Please writing its results out and reading them back
+                      strict |-> ~Had(id, f, "pass") /\ ~Had(id, f, "skip")]
+\* what ONE <testcase> element can say about a case (the surefire-style rendering Please itself writes): a passed
+\* case = one success + a flakyFailure/flakyError per bad execution; a never-passing case = its first bad execution
+\* as <failure>/<error> + a rerunFailure/rerunError for EACH further one, whatever the mixture of kinds
+InlineCounts(id) == [cls |-> id.cls, name |-> id.name,
+                     pass |-> IF Had(id, "xml", "pass") THEN 1 ELSE 0,
+                     fail |-> IF Had(id, "xml", "skip") THEN 0 ELSE NOut(id, "xml", "fail"),
+                     error |-> IF Had(id, "xml", "skip") THEN 0 ELSE NOut(id, "xml", "error"),
+                     skip |-> IF Had(id, "xml", "skip") THEN 1 ELSE 0,
+                     strict |-> ~Had(id, "xml", "pass") /\ ~Had(id, "xml", "skip")]
 \* the final outcomes the statement allows for a case, given the outcomes it had
 Allowed(id, f) ==
   LET P == Had(id, f, "pass")  S == Had(id, f, "skip")  E == Had(id, f, "error")  F == Had(id, f, "fail")
@@ -129,6 +143,9 @@ CountsOK == Len(runs) > 0 => \A f \in Formats :
   IN /\ a.tests = e.tests
      /\ In(a.passes, e.passes) /\ In(a.failures, e.failures) /\ In(a.errors, e.errors)
      /\ In(a.skips, e.skips) /\ In(a.flaky, e.flaky)
+\* TestSuite.Add keeps every execution with the right case
+ExecsOK == \A k \in 1..Len(results), f \in Formats, o \in Outcomes :
+             Cardinality({j \in 1..Len(results[k].execs) : View(f, results[k].execs[j]) = o}) = NOut(results[k].id, f, o)
 VerdictOK == Len(runs) > 0 => \A f \in Formats : Algo(f).target_passes = Expect(f).target_passes
 \* shape of the loop: every attempt but the last had a non-success entry; stopped iff the last one had none
 LoopShape == /\ \A r \in 1..(Len(runs) - 1) : ~AllOk(runs[r])
@@ -147,6 +164,8 @@ EmitCase == (Emit /\ Terminal) =>
   PrintT(<<"CASE", ToJson([allow |-> allow, runs |-> JRuns, stopped |-> stopped, layouts |-> Layouts,
                            inline_ok |-> InlineOK,
                            ids |-> Ids,
+                           execs |-> [f \in Formats |-> {ExecCounts(id, f) : id \in Ids}],
+                           inline |-> {InlineCounts(id) : id \in Ids},
                            expect |-> [f \in Formats |-> Expect(f)],
                            algo |-> [f \in Formats |-> Algo(f)]])>>)
 =============================================================================
